@@ -10,6 +10,7 @@ from pygradflow.iterate import Iterate
 from pygradflow.linear_solver import LinearSolver, LinearSolverError
 from pygradflow.params import Params
 from pygradflow.problem import Problem
+from pygradflow.step.step_solver_error import StepSolverError
 from pygradflow.util import norm_mult
 
 
@@ -28,6 +29,12 @@ class StepResult:
 
         var_lb = problem.var_lb
         var_ub = problem.var_ub
+
+        if not (np.isfinite(dx).all() and np.isfinite(self.dy).all()):
+            # e.g. an iterative linear solver that broke down without
+            # reporting it: treat as a failed step instead of building a
+            # non-finite iterate (and evaluating the problem there)
+            raise StepSolverError("Non-finite step")
 
         xn = iterate.x - dx
         dx = np.copy(dx)
